@@ -145,3 +145,8 @@ Fixpoint fd_balance (l : list sys) : Z :=
 Definition sys_of_fsev (e : fsev) : sys := match e with EvStat _ _ => SysStat | EvMkdir _ _ => SysMkdir end.
 Definition sys_of_dcall (c : dcall) : sys :=
   match c with DOpendir _ ok => SysOpendir ok | DReaddir _ => SysReaddir | DClosedir => SysClosedir end.
+
+(* the queries make one call each: zix_file_type and zix_file_size stat(2), zix_symlink_type lstat(2) *)
+Definition file_type_calls : list sys := [SysStat].
+Definition symlink_type_calls : list sys := [SysLstat].
+Definition file_size_calls : list sys := [SysStat].
